@@ -149,7 +149,7 @@ def r3_forward_pc(ctx):
                 r.violation("write@%s/other-add" % short, "pc := %s" % sig(nf)[:160], where)
             elif sig(q.novers(nf)).endswith(".begin") and ("state" in sig(q.novers(nf)) or "loop_state" in sig(q.novers(nf))):
                 # loop-back
-                isgate = lambda c: (c.startswith("Lt(0, ") or c.startswith("Ne(0, ")) and c.endswith(".iterations_left)")   # unsigned: > 0 ⇔ != 0
+                isgate = lambda c: ((c.startswith("Lt(0, ") or c.startswith("Ne(0, ")) and c.endswith(".iterations_left)")) or (c.startswith("Ne(") and c.endswith(".iterations_left, 0)"))   # unsigned: > 0 ⇔ != 0
                 gates = [a for a in q.pick_atoms(b, isgate) if isgate(a[1])]     # `left > 0` or `!(left == 0)` / `left <= 0` negated
                 r.check(len(gates) >= 1, "loopback/guard-present", "iterations_left > 0 is tested", "the loop-back is not guarded by iterations_left > 0", where)
                 if gates:
@@ -206,7 +206,8 @@ def r4_nesting(ctx):
                 "state/iterations", "iterations_left = iterations − 1", "iterations_left = %s" % sig(fld.get("iterations_left", ("unknown", "")))[:120])
         endnf = q.arith_nf(fld.get("end", ("unknown", "")))
         r.check(sig(endnf) == "Sub(Add(%s.1, ^self.pc), 1)" % INS or sig(endnf) == "Sub(Add(^self.pc, %s.1), 1)" % INS, "state/end", "end = pc + len − 1", "end = %s" % sig(endnf)[:140])
-        zero = [a for a in q.cmp_atoms(st) if sig(a[0]) == "Gt(%s.0, 0)" % INS]
+        ZW = ("Lt(0, %s.0)" % INS, "Ne(0, %s.0)" % INS, "Ne(%s.0, 0)" % INS)
+        zero = [a for a in q.pick_atoms(st, lambda c: c in ZW) if a[1] in ZW]      # `iterations > 0`, `!= 0`, or `== 0` with the branches swapped
         r.check(len(zero) == 1, "zero-iterations/test", "iterations > 0 is tested", "no test for zero iterations")
         if zero:
             f0 = force(st, {zero[0][0]: 0})
